@@ -23,6 +23,7 @@ def scenarios(tier):
         S(["H1", "H2"], [INFO, "--error-exitcode=7"]),                     # duplicate filter, header finding
         S(["SI", "SU"], base),                                             # inline matched + unmatched
         S(["HU1", "HU2"], base),                                           # unmatched inline suppression in shared header
+        S(["HM2", "HM1"], base + ["--error-exitcode=7"]),                  # header suppression matched by one includer only
         S(["E", "H1", "H2"], [INFO, "--suppress=arrayIndexOutOfBounds:hdr.h", "--suppress=zerodiv"]),
     ]
     light = [
@@ -42,7 +43,7 @@ def scenarios(tier):
     out = [(s, 1) for s in heavy] + [(s, 2 if tier == "thorough" else 1) for s in light]
     if tier == "thorough":
         more_heavy = [
-            S(["HS1", "HS2"], base), S(["SB", "SM"], base), S(["SI", "H1", "H2"], base + ["--error-exitcode=7"]),
+            S(["HS1", "HS2"], base), S(["SB", "SM"], base), S(["HM1", "HM2"], base + ["--error-exitcode=7"]), S(["SI", "H1", "H2"], base + ["--error-exitcode=7"]),
             S(["X", "XN"], [INFO]), S(["Y", "E"], [INFO, "--error-exitcode=7"]),
             S(["E", "H1", "H2"], [INFO, "--enable=unusedFunction"], builddir=True),
             S(["SI", "SU"], base + ["--enable=unusedFunction"], builddir=True),
@@ -78,7 +79,7 @@ def main(tier, replay=None):
             if ref is None:
                 ctx.violation("j1-xml-broken", "reference -j1 run produced unparsable XML", {"scenario": sc.name})
                 continue
-            for executor in ("thread", "process"):
+            for executor in ("thread", "process", "process/eager"):
                 for jobs in jobs_list:
                     if len(sc.order) < 2 or (jobs == 3 and len(sc.order) < 3) or ctx.expired():
                         continue
@@ -86,10 +87,12 @@ def main(tier, replay=None):
                     pool = None
                     if sc.builddir:
                         def runfn(prefix, sc=sc, executor=executor, jobs=jobs):
-                            return sc.run(executor, jobs, prefix)
+                            return sc.run(executor.split("/")[0], jobs, prefix,
+                                          env={"VSCHED_POLICY": "1"} if executor.endswith("/eager") else None)
                     else:
                         pool = explore.ServerPool(lambda sc=sc, executor=executor, jobs=jobs: explore.Server(
-                            sc.args(jobs, executor), sc.ws.dir, "t" if executor == "thread" else "p"))
+                            sc.args(jobs, executor.split("/")[0]), sc.ws.dir, "t" if executor == "thread" else "p",
+                            env={"VSCHED_POLICY": "1"} if executor.endswith("/eager") else None))
                         runfn = pool.run
 
                     def visit(x, sc=sc, executor=executor, jobs=jobs, ref=ref, refrc=refrc, runfn=runfn):
